@@ -1,9 +1,9 @@
 CONSTANTS
   RMax = 2
   CMax = 2
-  MaxLen = 6
-  TMax = 12
-  Sample = 150
+  MaxLen = 5
+  TMax = 10
+  Sample = 400
 INIT Init
 NEXT Next
 VIEW View
